@@ -525,6 +525,44 @@ pub fn bar_stream(grid: bool, min_len: usize, max_len: usize) -> BoxedStrategy<B
                     b.c = b.h;
                     b.v = 100.0
                 }),
+                // runs in which the highs and the lows follow series of their own instead of moving together around
+                // one price: 5 = contracting ranges (every bar inside the previous one: highs fall while lows rise),
+                // 6 = expanding ranges (highs rise while lows fall), 7 = a rising ceiling over a flat floor. A structure
+                // that tracks both extremes and does its house-keeping only when one particular side moves meets its
+                // worst case in exactly one of these.
+                pat @ 5..=7 => {
+                    let q = |x: f64| match g {
+                        Some(st) if st > 0.0 => (x / st).round() * st,
+                        _ => x,
+                    };
+                    let run = 12 + (aux * 4096.0) as usize % 120;
+                    let gap = 5 + (aux * 512.0) as usize % 30;
+                    let mut i = gap;
+                    while i + run <= bars.len() {
+                        let c0 = bars[i].c;
+                        let w = 0.04 * c0.abs();
+                        for k in 0..run {
+                            let f = (k + 1) as f64 / (run + 1) as f64; // strictly increasing in (0,1)
+                            let (h, l) = match pat {
+                                5 => (c0 + w * (1.0 - f), c0 - w * (1.0 - f)),
+                                6 => (c0 + w * f, c0 - w * f),
+                                _ => (c0 + w * f, c0 - w * 0.5),
+                            };
+                            let (h, l) = (q(h), q(l));
+                            if !(l <= h) || !(l > 0.0) {
+                                continue;
+                            }
+                            let b = &mut bars[i + k];
+                            let u = (b.c - b.l) / (b.h - b.l);
+                            let u = if u.is_finite() { u.clamp(0.0, 1.0) } else { 0.5 };
+                            b.h = h;
+                            b.l = l;
+                            b.c = q(l + (h - l) * u).clamp(l, h);
+                            b.o = b.c;
+                        }
+                        i += run + gap;
+                    }
+                }
                 _ => {}
             }
             BarStream { regime, bars }
